@@ -59,7 +59,7 @@ typedef kobs_t obs_t;
 static int
 kind_for_prop(const char *kind) {
   static const char *map[][16] = {
-    {"C02", "lost-synced-write", "lost-after-log-delete", NULL},
+    {"C02", "lost-synced-write", "lost-after-log-delete", "open-failed", "nested-open-failed", NULL},
     {"C03", "process-crash-lost-ack", "process-crash-phantom", "process-crash-content", "process-crash-open-failed", "nested-process-crash", NULL},
     {"C04", "batch-torn", NULL},
     {"C05", "open-failed", "phantom-batch", "non-prefix-loss", "content-mismatch", "batch-torn", "second-open-differs", "followup-lost", "nested-differs", "nested-open-failed", "read-inconsistent", NULL},
